@@ -291,3 +291,10 @@ package f3
 //@     before[stored_only_after_it_validated] res(ValidateFinalityCertificates, 1, 3) == nil && arg(2) == res(NewFinalityCertificate, 1, 0)
 //@   at return 0
 //@     before[success_means_validated_and_stored] arg(1) == nil ==> dominatedBy(Put, 1) && res(Put, 1) == nil && arg(0) == res(NewFinalityCertificate, 1, 0)
+
+// C14 decoder sweep: no index, slice or allocation-size panic for any input the CBOR reader can produce.
+//@ func (*walEntry).UnmarshalCBOR
+//@   property C14
+//@   modifies auto
+//@   maypanic
+
